@@ -57,6 +57,42 @@ theorem servicesched_translated_pinned : Irismod.Gen.PureServiceSched.translated
      "StartRequestContext_cond_4(read_k_HasRequestBatchExpiration_ctx_requestContextID,read_k_HasNewRequestBatch_ctx_requestContextID)",
      "StartRequestContext_call_AddNewRequestBatch_1_arg2(read_ctx_BlockHeight)"] := rfl
 
+/-- every rejecting guard (an `if` ending in the return of an error, or in a panic) of the translated functions and of
+the handlers around them, as source text in source order: removing, weakening or reordering one breaks this -/
+theorem servicesched_guards_pinned : Irismod.Gen.PureServiceSched.guards =
+    ["UpdateRequestContext: !found",
+     "UpdateRequestContext: err := k.CheckAuthority(ctx, consumer, requestContextID, false); err != nil",
+     "UpdateRequestContext: err := types.ValidateRequestContextUpdating(providers, serviceFeeCap, timeout, repeatedFreq, repeatedTotal); err != nil",
+     "UpdateRequestContext: respThreshold > uint32(len(pds))",
+     "UpdateRequestContext: err := k.validateServiceFeeCap(ctx, serviceFeeCap); err != nil",
+     "UpdateRequestContext: timeout > maxRequestTimeout",
+     "UpdateRequestContext: repeatedFreq < uint64(timeout)",
+     "UpdateRequestContext: repeatedTotal >= 1 && repeatedTotal < int64(requestContext.BatchCounter)",
+     "StartRequestContext: !found",
+     "StartRequestContext: err := k.CheckAuthority(ctx, consumer, requestContextID, false); err != nil",
+     "StartRequestContext: requestContext.Repeated && requestContext.RepeatedTotal >= 0 && int64(requestContext.BatchCounter) >= requestContext.RepeatedTotal",
+     "Keeper.CreateRequestContext: _, err := k.GetResponseCallback(moduleName); err != nil",
+     "Keeper.CreateRequestContext: _, err := k.GetStateCallback(moduleName); err != nil",
+     "Keeper.CreateRequestContext: err := types.ValidateRequest( serviceName, serviceFeeCap, providers, input, timeout, repeated, repeatedFrequency, repeatedTotal, ); err != nil",
+     "Keeper.CreateRequestContext: responseThreshold < 1 || int(responseThreshold) > len(providers)",
+     "Keeper.CreateRequestContext: !found",
+     "Keeper.CreateRequestContext: err := types.ValidateRequestInput(input); err != nil",
+     "Keeper.CreateRequestContext: err := k.validateServiceFeeCap(ctx, serviceFeeCap); err != nil",
+     "Keeper.CreateRequestContext: timeout > maxRequestTimeout",
+     "Keeper.PauseRequestContext: !found",
+     "Keeper.PauseRequestContext: err := k.CheckAuthority(ctx, consumer, requestContextID, false); err != nil",
+     "Keeper.KillRequestContext: !found",
+     "Keeper.KillRequestContext: err := k.CheckAuthority(ctx, consumer, requestContextID, false); err != nil",
+     "Keeper.AddResponse: !found",
+     "Keeper.AddResponse: !provider.Equals(requestProvider)",
+     "Keeper.AddResponse: !k.IsRequestActive(ctx, requestID)",
+     "Keeper.AddResponse: err := types.ValidateResponseOutput(output); err != nil",
+     "Keeper.AddResponse: err := k.AddEarnedFee(ctx, provider, request.ServiceFee); err != nil",
+     "Keeper.CheckAuthority: !found",
+     "Keeper.CheckAuthority: consumer.String() != requestContext.Consumer",
+     "Keeper.CheckAuthority: checkModule && len(requestContext.ModuleName) > 0",
+     "Keeper.validateServiceFeeCap: len(serviceFeeCap) != 1 || serviceFeeCap[0].Denom != baseDenom"] := rfl
+
 private theorem wrap_id (x : Int) (h : -9223372036854775808 ≤ x ∧ x < 9223372036854775808) : I64_wrap x = x := by
   unfold I64_wrap
   have e : (x + 9223372036854775808).emod 18446744073709551616 = x + 9223372036854775808 :=
